@@ -26,7 +26,7 @@ Verdict(e, ok, class, kind) == <<e.id, IF ok THEN "ok" ELSE "dev", "C01", class,
 HashKind(e) == IF e.outcome # "ok" THEN e.outcome ELSE "wrong-digest"
 \* --- sm3.hash ---
 Hash3(e, m, st1, d) == /\ tst' = [k |-> e.gen.k, seed |-> e.gen.seed, n |-> st1.n, v |-> st1.v]
-                       /\ tlast' = Verdict(e, e.outcome = "ok" /\ e.digest = d, IF e.gen.k = "raw" /\ Len(m) = 64 /\ InternalCoincidence(m) THEN "crafted-internal" ELSE LenClass(Len(m)), HashKind(e))
+                       /\ tlast' = Verdict(e, e.outcome = "ok" /\ e.digest = d, IF e.gen.k = "raw" /\ Len(m) = 64 /\ InternalCoincidence(m) THEN "crafted-internal" ELSE IF e.gen.k = "raw" /\ CraftedValue(m) THEN "crafted-value" ELSE LenClass(Len(m)), HashKind(e))
 Hash2(e, m, st1) == Hash3(e, m, st1, Finish(st1, m))
 Hash1(e, m) == Hash2(e, m, AbsorbTo(Base(e, Len(m) \div 64), m, Len(m) \div 64))
 \* --- sm3.block (hook): block index e.idx (0-based) of the generated message; chaining values before/after as 8 words ---
